@@ -70,6 +70,7 @@ G0 == [ sc      |-> "none",
         reachb  |-> <<>>,      \* version token -> nodes it reached at the last `reach` tagged "before"
         txins   |-> <<>>,      \* client -> keys it INSERTed since BEGIN (or in the current autocommit statement)
         everins |-> <<>>,      \* client -> keys it has ever INSERTed through its current handle (KF-MAST-3)
+        taint   |-> {},        \* keys INSERTed through a handle that later committed a version (KF-MAST-3, published)
         leakable|-> {},        \* keys INSERTed by a transaction that was rolled back or whose commit failed (KF-MAST-1)
         leakst  |-> {},        \* ... and those INSERT statements themselves
         ord     |-> <<>>,      \* <<a, b>> (concrete key literals) -> recorded result of Key.Order(a, b)
@@ -118,7 +119,9 @@ OnlyLeaked(rows, expected) == expected \subseteq rows /\ rows # expected /\ \A r
 (* new child is written into it); when the tree later returns to that old content (the row was deleted and       *)
 (* vacuumed) the handle that did the INSERT reads the stale row again.  Named only when the deviation is exactly  *)
 (* extra rows whose keys this client once INSERTed.                                                              *)
-OnlyStale(c, rows, expected) == expected \subseteq rows /\ rows # expected /\ \A r \in rows \ expected : r[1] \in Get(g.everins, c, {})
+(* When that handle goes on writing, the version it commits is built on the corrupted cached node and carries the  *)
+(* stale row to every reader: extra rows whose keys were INSERTed through a handle that committed afterwards.        *)
+OnlyStale(c, rows, expected) == expected \subseteq rows /\ rows # expected /\ \A r \in rows \ expected : r[1] \in Get(g.everins, c, {}) \cup g.taint
 (* KF-EMPTYTEXT-1: the SQLite binding returns an empty TEXT as NULL.  Named only when the observed rows are    *)
 (* exactly the expected rows with every empty text (value or key) read as NULL.                              *)
 ET(v) == IF v = "t:" THEN R!NullV ELSE v
@@ -161,6 +164,7 @@ OnS3(e) ==
                        \cup (IF c \in DOMAIN g.inflight THEN {g.inflight[c]} ELSE {})
       g1 == IF e.op = "PUT" /\ e.res = "ok" /\ e.cls = "cur"
             THEN [g EXCEPT !.cur = @ \cup {e.name},
+                           !.taint = @ \cup Get(g.everins, c, {}),
                            !.vfacts = IF e.name \in DOMAIN @ THEN @ ELSE Put(@, e.name, putfacts),
                            !.vpar = Put(@, e.name, Range(e.parents)),
                            !.vcre = Put(@, e.name, e.created),
@@ -423,7 +427,9 @@ OnKVDump(e) ==
       wd == IF w \in DOMAIN g.lastdump THEN g.lastdump[w] ELSE e
       v2 == IF w \notin DOMAIN g.lastdump THEN {} ELSE
             IF Canon(wd.entries) # Canon(e.entries) \/ wd.size # e.size \/ wd.height # e.height
-            THEN V("C16", "C16_DecodesToSame", e, [writer |-> [entries |-> Canon(wd.entries), size |-> wd.size, height |-> wd.height],
+            THEN V("C16", \* (KF-MAST-1: the writer's in-memory tree still holds an INSERT that was rolled back / failed)
+                   IF Canon(e.entries) \subseteq Canon(wd.entries) /\ \A x \in Canon(wd.entries) \ Canon(e.entries) : x.key \in g.leakable
+                   THEN "C16_DecodesToSame_LeakedInsert" ELSE "C16_DecodesToSame", e, [writer |-> [entries |-> Canon(wd.entries), size |-> wd.size, height |-> wd.height],
                                                     reader |-> [entries |-> Canon(e.entries), size |-> e.size, height |-> e.height]]) ELSE {}
       v3 == IF e.has_only THEN CheckRows(e, c, FactsOfVersions(only), rows, "open of named versions") ELSE {}
   IN [g2 |-> g, v |-> v1 \cup v2 \cup v3]
